@@ -14,6 +14,24 @@ COMMON_NOTE = ('Trusted base: pyvc interpreter of the Python subset (A1), assume
                'Skolemisation/induction/Hoare schema of pyvc (A7). Bounded entries in the evidence are a stand-in and are not counted as proved. ')
 
 CLAIMED = {
+    'C01': dict(
+        text='(1) compute_a_and_b: the eight propagator coefficients produced by the REAL code equal, as rational functions of (xi, w, dt, sqrt(1-xi^2), exp, sin, cos), the coefficients of the exact solution of u\'\'+2 xi w u\'+w^2 u = f0+(f1-f0)t/dt '
+             '(closed form taken from the statement; polynomial identities discharged by z3 NRA with the transcendental applications generalised to atoms). (2) nigam_and_jennings_response, verified MODULARLY against that contract with a loop invariant, '
+             'for symbolic record length and symbolic number of periods: shapes, zero initial conditions, u/v advance by the exact one-step solution at every sample, third series = -(2 xi w v + w^2 u), leading T=0 row (zero u, v; sign-flipped record), '
+             'w*T = 6.2831853 with |6.2831853-2pi| <= 1.2e-9*2pi, inputs not written. (3) both public entry points (response_series, AccSignal.response_series) satisfy the same postconditions. (4, thorough) Lean 4/Mathlib: the closed form satisfies the ODE and the initial conditions.',
+        note='The floating-point tolerance clause (1e-6 + 5e-8*duration/T + eps/(w dt)^3) is not decided (A3). Uniqueness of ODE solutions / concatenation of the per-step solutions (Picard-Lindelof) is cited, not mechanised (A5).',
+        ref='DESIGN.md 7 C01'),
+    'C02': dict(
+        text='Lemmas over the C01 contract, proved by induction on the sample index (base + step obligations, quantifier-free steps): linearity, causality, delay by k prepended zeros, a row depends on its own period only; the flow (semigroup) identity '
+             'of the exact step that refinement invariance rests on; spectral corollaries (|alpha| scaling, sign, never decrease under refinement) from absmax\'s contract. Plus bounded symbolic relational checks between executions of the REAL code (n = 3, 4; two periods): linearity of u, v, a; causality at every split; shift by 1 and 2; period order / batching / leading zero.',
+        note='The induction over the m sub-steps that turns the flow identity into refinement invariance is stated, not mechanised. The "checkable to 1e-10" clause is about floating point (A3).',
+        ref='DESIGN.md 7 C02'),
+    'C03': dict(
+        text='Modular (over the C01 contract) unbounded proofs: absmax = max|.| (bound + attained, 1-D and per row); pseudo_response_spectra / true_response_spectra for array, list and tuple period containers, with and without a leading 0: '
+             'S_d = max|u|, S_v = w S_d / max|v|, S_a = w^2 S_d / max|a_total| above 6 dt and PGA below, T=0 entries, non-negativity, one entry per period, response computed for exactly this record/step/periods/damping; undamped true S_a equals pseudo S_a to 3e-9; '
+             'AccSignal.gen_response_spectrum: integration step <= max(T_min/20, dt/min_dt_ratio), dt an integer multiple of it, every original sample retained in the integrated record, periods/damping passed, s_a/s_v/s_d are that computation; energy spectra equal their defining sums.',
+        note='Input energy non-negative at record end: false for the rectangle sum (known finding K1, printed as KNOWN-FINDING). Finiteness is outside exact arithmetic (A3). calc_asi / calc_vsi wiring not under contract.',
+        ref='DESIGN.md 7 C03'),
     'C04': dict(
         text='Representation invariant (flag -> cached == F(values, dt, settings), F defined by running the real generator from a cold cache) proved preserved by EVERY public operation of Signal and '
              'AccSignal from an ARBITRARY state satisfying it (symbolic cache flags, symbolic record/settings of symbolic length): 53 mutator / settings / generator operations incl. the attribute write '
@@ -71,6 +89,23 @@ CLAIMED = {
              '(refine) or reciprocal integer (decimate), original samples retained at k*f, output a subsequence when decimating, length formula incl. even rule, every output within the input range, input not written.',
         note='Float-only quotient corner (K4) is outside the exact-arithmetic idealisation. resample_to_approx_dt: see evidence.',
         ref='DESIGN.md 7 C14'),
+    'C17': dict(
+        text='butter_pass (tuple/list/ndarray cut-offs, band/low/high, every remove_gibbs option): unbounded proof that exactly one butter() and one filtfilt() call is made with the filter type from the None pattern, the cut-off normalised by 0.5/dt, the requested order, '
+             'the filtered series = the record or start-mean|record|end-mean padded to 2^(ceil(log2 n)+extra), and that the new values are the filter output at the record positions (length and dt preserved); bad cut-offs raise ValueError. '
+             'add_constant/add_series/add_signal: element-wise sum, mismatches rejected with the state untouched (unbounded). remove_poly (object and array level, degree 0..4): residual = record minus the degree-k least-squares polynomial (unbounded); '
+             'residual has zero best fit, idempotent, unaffected by adding a polynomial first (bounded, exact rational least squares). running_average: mean of the ORIGINAL samples within floor(w/2) positions (bounded).',
+        note='Zero phase / |H(f)|^2 gain away from the ends is a property of scipy.signal.butter/filtfilt in an asymptotic regime: not decidable by contracts on eqsig (N). Linearity of the filter rests on SciPy (A2).',
+        ref='DESIGN.md 7 C17'),
+    'C18': dict(
+        text='combine_at_angle: ns*cos(theta)+we*sin(theta) in degrees, theta=0, 90, theta+180, new signal has ns.dt (unbounded, trig identities A4). compute_rotated: angles span the half circle from the offset and each value is the measure of that combination, '
+             'for the three ways of naming the measure; ValueError when none is given (unbounded in the record length, 3 angles). Cluster.same_start (2-4 signals, every master index) and Cluster.time_match (lags -1, 0, 1 within a window of 2; values stay arrays, lengths unchanged, compared samples coincide): bounded symbolic.',
+        note='Cluster clauses are bounded, not proved.',
+        ref='DESIGN.md 7 C18'),
+    'C19': dict(
+        text='put_array_in_2d_array and join_values_w_shifts / join_sig_w_time_shift: unbounded in the record length for representative shift vectors (positive, mixed, negative, zero) and all clip options: values at exactly the requested offsets, zeros elsewhere, shapes. '
+             'get_time_shift_motions, calc_surface_energy, calc_cum_abs_surface_energy: bounded symbolic (n = 3, 4; zero / fractional / integer delays; scalar and per-row reductions; nodal x trim x start x stt): every cell equals the shifted-wave definition (linear interpolation of fractional delays, trapezoid velocity, v|v|/2), output lengths, monotone cumulative measure, zero for tau = 0 at a nodal surface, batch rows equal single results on the common length.',
+        note='alpha^2 scaling is a consequence of the proved formula and is not mechanised. Surface functions are bounded, not proved.',
+        ref='DESIGN.md 7 C19'),
     'C20': dict(
         text='Complete (loop-free, full-domain symbolic) proofs for the NZS 1170.5 helpers: sd_nzs == c_h_factor*T^2*Z*N*R on every branch of C/D/E, array form == scalar form, continuity within 0.5% at every breakpoint, '
              't_eff inverts the corner displacement relation, domain errors raise; bounded symbolic checks (all real inputs, stated sizes) for interp2d, interp_left, calc_roll_av_vals, calc_step_fn_vals_error, calc_step_fn_steps_vals.',
